@@ -823,6 +823,58 @@ func (g *Gen) genParse(p *Prog) {
 		p.Exec(fmt.Sprintf("parse %d %d %x", z, []int{0, 0, 10}[g.intn(3)], zs))
 		return
 	}
+	if g.chance(0.10) {
+		// binary-exponent literals whose value is representable (or a hair away from representable) although the
+		// written mantissa is much longer than the receiver: hex(M*2^k) p-k = M, hex(M*5^k) p+k = M*10^k, and +-1 in
+		// the written mantissa. With ndigits(2^k) <= prec+19 the power of two is exact and so must the result be.
+		zp := 1 + g.intn(60)
+		zr := p.loadMaybeInexact(Val{Form: 0, Prec: uint(zp), Mode: g.mode()}, true)
+		md := 1 + g.intn(zp)
+		if g.chance(0.2) {
+			md = zp + 1 + g.intn(25) // not representable: within one unit, truthful accuracy
+		}
+		m, _ := new(big.Int).SetString(strings.TrimLeft(g.digitsPattern(md), "0")+"7", 10)
+		var k int
+		switch g.intn(3) {
+		case 0:
+			k = 1 + g.intn(66)
+		case 1:
+			k = (zp + 19) * 1000 / 302 // about the largest k with an exact power
+			k -= g.intn(12)
+		default:
+			k = 60 + g.intn(400)
+		}
+		w := new(big.Int)
+		sign := "-"
+		if g.chance(0.5) {
+			w.Mul(m, new(big.Int).Lsh(big.NewInt(1), uint(k)))
+		} else {
+			w.Mul(m, new(big.Int).Exp(big.NewInt(5), big.NewInt(int64(k)), nil))
+			sign = "+"
+		}
+		if g.chance(0.25) {
+			w.Add(w, big.NewInt(int64(g.intn(3)-1)))
+		}
+		var lit string
+		base := 0
+		switch g.intn(4) {
+		case 0:
+			lit = "0x" + w.Text(16)
+		case 1:
+			lit = "0b" + w.Text(2)
+		case 2:
+			lit = "0o" + w.Text(8)
+		default:
+			lit = w.Text(10)
+			base = []int{0, 10}[g.intn(2)]
+		}
+		lit += fmt.Sprintf("p%s%d", sign, k)
+		if g.chance(0.3) {
+			lit = "-" + lit
+		}
+		p.Exec(fmt.Sprintf("parse %d %d %x", zr, base, lit))
+		return
+	}
 	var s string
 	base := []int{0, 10, 10, 0, 2, 8, 16}[g.intn(7)]
 	digs := func(n int, set string) string {
